@@ -12,7 +12,7 @@ open Finset
 
 /-! ## flat / unflat -/
 
-theorem flat_unflat (shape : List Nat) (p : Nat) : flat shape (unflat shape p) = p % prod shape := by
+theorem flat_unflat_modI (shape : List Nat) (p : Nat) : flat shape (unflat shape p) = p % prod shape := by
   induction shape with
   | nil => simp [flat, prod, Nat.mod_one]
   | cons d ds ih =>
@@ -22,8 +22,8 @@ theorem flat_unflat (shape : List Nat) (p : Nat) : flat shape (unflat shape p) =
 /-- unflat is injective on the box (row-major digits determine the flat position) -/
 theorem unflat_inj (shape : List Nat) (p q : Nat) (hp : p < prod shape) (hq : q < prod shape)
     (h : unflat shape p = unflat shape q) : p = q := by
-  have h1 := flat_unflat shape p
-  have h2 := flat_unflat shape q
+  have h1 := flat_unflat_modI shape p
+  have h2 := flat_unflat_modI shape q
   rw [Nat.mod_eq_of_lt hp] at h1
   rw [Nat.mod_eq_of_lt hq] at h2
   rw [← h1, ← h2, h]
